@@ -2,11 +2,13 @@
 META = dict(
   level_text='Bounded model checking of the individual mechanisms the sweep uses to realise the fill-rule x clip-type semantics (contribution table, winding-count bookkeeping, one intersection step), each against the mathematical definition, for all symbolic pre-states within the stated bounds. The end-to-end statement over all geometry is NOT decided (symbolic geometry through the whole sweep does not terminate in symex); the composition of the mechanisms into it is the classical Vatti argument and is not machine checked.',
   level_note='Pre-states are constrained by the representation invariant (I) written in harness/eng_wind.cpp (edge counters = winding numbers of adjacent regions); (I) is itself shown to be established by SetWindCountForClosedPathEdge and preserved by IntersectEdges. Trusted: clang/opt, ir2c (self-tested), CBMC.',
-  functions=['ClipperBase::IsContributingClosed', 'ClipperBase::SetWindCountForClosedPathEdge'],
+  functions=['ClipperBase::IsContributingClosed', 'ClipperBase::SetWindCountForClosedPathEdge', 'ClipperBase::IntersectEdges (closed-path part)', 'SwapOutrecs'],
   assumptions=['AEL prefixes of at most 3 edges', '|winding numbers| <= 10^6', 'no joined edges in pre-states'],
   outside=['end-to-end region equality over all geometry', 'DoHorizontal, DoMaxima, BuildIntersectList ordering, CleanCollinear/FixSelfIntersects', 'coordinates near 2^61'],
 )
+STEP = {'Clipper2Lib::ClipperBase::AddLocalMaxPoly(': 'stub_maxpoly', 'Clipper2Lib::ClipperBase::AddLocalMinPoly(': 'stub_minpoly', 'Clipper2Lib::ClipperBase::AddOutPt(': 'stub_addoutpt'}
 OBLIGATIONS = [
+  O('C01.c-intersect-step', 'eng_wind.cpp', 'harness_intersect_step', replace=STEP, unwind=4, timeout=300, bound='two adjacent closed edges of any types/directions, left-region winding numbers |w|<=1000, all 16 clip-type x fill-rule configurations, both edges hot/cold as invariant (H) dictates, any front/back assignment', desc='after IntersectEdges the counters satisfy (I) and hotness satisfies (H) for the swapped order; a vertex is emitted iff a contour passes through the crossing'),
   O('C01.a-contributing-closed', 'eng_wind.cpp', 'harness_contrib_closed', bound='4 clip types x 4 fill rules x 2 path types x dir x |w|<=1e6', desc='IsContributingClosed(e) <=> result membership differs across e'),
   O('C01.a-noclip', 'eng_wind.cpp', 'harness_contrib_noclip', bound='all counters', desc='NoClip never contributes'),
   O('C01.b-setwind-closed', 'eng_wind.cpp', 'harness_setwind_closed', unwind=6, bound='AEL prefix k<=3 of closed/open edges, any types/directions', desc='SetWindCountForClosedPathEdge establishes invariant (I)'),
